@@ -17,6 +17,9 @@
 (*   dyn_fn_in Box<dyn Fn(X) -> u8> dyn_fn_out Box<dyn Fn(u8) -> X>        *)
 (*                                  (parenthesised path arguments)         *)
 (*   qself     <X as TrQ>::Assoc    qualified self                         *)
+(*   qtrait    <i32 as TrQA<X>>::Assoc   argument of the trait of a        *)
+(*                                  qualified path (concrete self type)    *)
+(*   qgat      <i32 as TrG>::Of<X>  argument of a generic associated type  *)
 (*   proj      X::Assoc             (only directly on the parameter)       *)
 (*   second    W2<u8, X>            a later generic argument               *)
 (* Doc: the type needs a bound iff the parameter occurs anywhere in it.    *)
@@ -26,7 +29,7 @@
 EXTENDS Naturals, Sequences, FiniteSets, TLC
 
 Wrappers == {"wrap", "array", "paren", "ptr", "ref", "slice", "fn_in", "fn_out", "tuple", "dyn_arg", "dyn_assoc",
-             "dyn_fn_in", "dyn_fn_out", "qself", "proj", "second"}
+             "dyn_fn_in", "dyn_fn_out", "qself", "proj", "second", "qtrait", "qgat"}
 Leaves == {"param", "concrete"}
 
 \* a type = <<leaf, w1, w2, ...>>: leaf wrapped by w1 (innermost) then w2 ...
@@ -48,6 +51,7 @@ ImplArm(w, inner) ==
       [] w = "dyn_assoc" -> inner                                                 \* GenericArgument::AssocType
       [] w \in {"dyn_fn_in", "dyn_fn_out"} -> inner                               \* PathArguments::Parenthesized
       [] w = "qself" -> inner                                                     \* qself.ty.contains_generics
+      [] w \in {"qtrait", "qgat"} -> inner                                        \* ... || path.contains_generics (every segment)
       [] w = "proj" -> inner                                                      \* first segment is the parameter
 ImplContains(t) ==
     LET RECURSIVE Go(_)
